@@ -54,37 +54,6 @@ Definition i_chk (m : ms) : bool := match type_of m with ROk _ => true | RErr _ 
 Definition i_from_tree := from_tree i_parse_key i_parse_hash i_chk.
 Definition i_to_tree := to_tree i_print_key i_print_hash.
 
-(* ---- the node vector back to a tree (pre-order, n_children) *)
-Fixpoint build (fuel : nat) (nodes : list node) : option (etree * list node) :=
-  match fuel with
-  | O => None
-  | S f =>
-    match nodes with
-    | [] => None
-    | nd :: rest =>
-      match (fix kids (n : nat) (rest : list node) : option (list etree * list node) :=
-               match n with
-               | O => Some ([], rest)
-               | S n' => match build f rest with
-                         | None => None
-                         | Some (c, rest') =>
-                           match kids n' rest' with
-                           | None => None
-                           | Some (cs, rest'') => Some (c :: cs, rest'')
-                           end
-                         end
-               end) (N.to_nat (nd_n_children nd)) rest with
-      | None => None
-      | Some (cs, rest') => Some (ENode (nd_name nd) (nd_parens nd) cs, rest')
-      end
-    end
-  end.
-Definition tree_of_nodes (nodes : list node) : option etree :=
-  match build (S (length nodes)) nodes with
-  | Some (t, []) => Some t
-  | _ => None
-  end.
-
 (* ---- AST tokens (same numbering as harness/src/text_ms.rs) *)
 Definition tok_str (s : tbytes) : list N := blen s :: s.
 Fixpoint ms_tokens (m : ms) : list N :=
